@@ -1102,6 +1102,14 @@ static std::ostream& print_double(std::ostream& os, double value)
     return os;
 }
 
+/** Prints "; N" for the optional number of runs of an SMC query (-1 stands for "not given"). */
+static std::ostream& print_runs(std::ostream& os, const expression_t& runs)
+{
+    if (runs.get_kind() == CONSTANT && runs.get_type().is_integer() && runs.get_value() < 0)
+        return os;
+    return runs.print(os << "; ");
+}
+
 static inline std::ostream& embrace_strict(std::ostream& os, bool old, const expression_t& expr, int precedence)
 {
     if (precedence > expr.get_precedence())
@@ -1135,29 +1143,40 @@ std::ostream& expression_t::print(std::ostream& os, bool old) const
     int nb;
 
     switch (data->kind) {
+    // operands of the SMC queries: 0: number of runs (-1 if not given), 1: bound type or bounded expression,
+    // 2: bound, then the kind specific ones (see ExpressionBuilder::expr_proba_*)
     case PROBA_MIN_BOX: flag = true; [[fallthrough]];
     case PROBA_MIN_DIAMOND:
         os << "Pr[";
-        print_bound_type(os, get(0));
-        get(1).print(os, old);
+        print_bound_type(os, get(1));
+        get(2).print(os, old);
+        print_runs(os, get(0));
         os << (flag ? "]([] " : "](<> ");
-        print_double(get(2).print(os, old) << ") >= ", get(3).get_double_value());
+        print_double(get(3).print(os, old) << ") >= ", get(4).get_double_value());
         break;
 
     case PROBA_BOX: flag = true; [[fallthrough]];
     case PROBA_DIAMOND:
         os << "Pr[";
-        print_bound_type(os, get(0));
-        get(1).print(os, old) << (flag ? "]([] " : "](<> ");
-        get(2).print(os, old) << ")";
+        print_bound_type(os, get(1));
+        get(2).print(os, old);
+        print_runs(os, get(0));
+        if (flag || get(4).is_true()) {
+            os << (flag ? "]([] " : "](<> ");
+            get(3).print(os, old) << ")";
+        } else {  // Pr[...](p U q)
+            get(3).print(os << "](", old) << " U ";
+            get(4).print(os, old) << ")";
+        }
         break;
 
     case PROBA_EXP:
         os << "E[";
-        print_bound_type(os, get(0));
-        get(1).print(os, old) << "; ";
-        get(2).print(os, old) << "] (" << (get(4).get_value() ? "max: " : "min: ");
-        get(3).print(os, old) << ")";
+        print_bound_type(os, get(1));
+        get(2).print(os, old);
+        print_runs(os, get(0));
+        os << "] (" << (get(3).get_value() ? "max: " : "min: ");
+        get(4).print(os, old) << ")";
         break;
 
     case PROBA_CMP:
